@@ -170,13 +170,14 @@ Fixpoint runs_ok (g : gfx) (ids : list Z) (per : Z) (cs : list chunk) : bool :=
               && runs_ok g r per (skipn (Z.to_nat per) cs)
   end.
 
-Definition judge_clean (g : gfx) (ids : list Z) (ls : list (list Z)) (h : list line) (ds : list delivery) : option sexp :=
+(* [p0]: position of the clean run's first line in the whole history ([h] is the run's part of it) *)
+Definition judge_clean_from (p0 : Z) (g : gfx) (ids : list Z) (ls : list (list Z)) (h : list line) (ds : list delivery) : option sexp :=
   let cs := chunks_of h in
   let n := zlen ids in
   let per := if n =? 0 then 0 else zlen cs / n in
   if negb (zlen cs =? per * n) || negb (runs_ok g ids per cs) then Some (v_specfail "c05-chunking" (I per))
   else if negb (list_eqb delivery_eqb ds
-                  (if per =? 0 then [] else clean_expected g ids per (positions_of_gfx h 0)))
+                  (if per =? 0 then [] else clean_expected g ids per (positions_of_gfx h p0)))
   then Some (v_specfail "c05-clean" (I per))
   else
     (* correspondence of the encoder: the graphics lines are the model's *)
@@ -184,6 +185,8 @@ Definition judge_clean (g : gfx) (ids : list Z) (ls : list (list Z)) (h : list l
     let mlines := flat_map (gfx_lines g) ids in
     if list_eqb bytes_eqb glines mlines then None
     else Some (v_mismatch (L (map B mlines))).
+
+Definition judge_clean := judge_clean_from 0.
 
 Fixpoint dec_blist (l : list sexp) : option (list (list Z)) :=
   match l with [] => Some [] | B x :: r => let? xs := dec_blist r in Some (x :: xs) | _ => None end.
@@ -243,6 +246,18 @@ Definition run_case (s : sexp) : sexp :=
       match dec_disc dsx, dec_gfx gx, get_ints ids, dec_lines lines, dec_steps steps with
       | Some d, Some g, Some ids, Some ls, Some st => judge_hist d ls st (judge_clean g ids ls)
       | _, _, _, _, _ => v_badcase
+      end
+    else v_badcase
+  | L [S n; dsx; L gx; L ids; L pre; L lines; L steps] =>
+    (* (cleanp disc gfx ids (prefix lines) (clean lines) steps): the clean run is fed AFTER an abandoned
+       transfer (its first parts, never its last) for another target / format - "from any reader state".
+       The prefix delivers nothing; the run delivers exactly its images at its last lines. *)
+    if bytes_eqb n (str "cleanp") then
+      match dec_disc dsx, dec_gfx gx, get_ints ids, dec_lines pre, dec_lines lines, dec_steps steps with
+      | Some d, Some g, Some ids, Some pls, Some ls, Some st =>
+        let np := List.length pls in
+        judge_hist d (pls ++ ls) st (fun h ds => judge_clean_from (Z.of_nat np) g ids ls (skipn np h) ds)
+      | _, _, _, _, _, _ => v_badcase
       end
     else v_badcase
   | L [S n; B a; B b] =>
